@@ -5,6 +5,7 @@ import (
 
 	"github.com/nspcc-dev/neo-go/pkg/core/transaction"
 	"github.com/nspcc-dev/neo-go/pkg/neorpc/result"
+	"github.com/nspcc-dev/neo-go/pkg/util"
 )
 
 // C13 (native-Go mode): divideFundsEvenly for a concrete number of receivers (param 0) and every 64-bit amount.
@@ -79,4 +80,41 @@ func VerifC13TxWindow() {
 		vCover("same-window")
 		vAssert(err2 == nil && tx2.Nonce == tx.Nonce && tx2.ValidUntilBlock == tx.ValidUntilBlock, "C13/same-window-same-nonce-and-validity")
 	}
+}
+
+// C13 (native-Go mode): the sharedTransactionData codec for EVERY value (20 symbolic sender bytes, every
+// 32-bit validUntilBlock and nonce): fixed 28-byte big-endian layout, base64 round trip, checksum prefix round
+// trip for a symbolic payload of param 0 bytes, refusal of inputs shorter than the checksum.
+func VerifC13Codec() {
+	senderBytes := vBytes("sender", 20)
+	sender, err := util.Uint160DecodeBytesBE(senderBytes)
+	vAssume(err == nil)
+	vub, nonce := vU32("validUntilBlock"), vU32("nonce")
+	x := sharedTransactionData{sender: sender, validUntilBlock: vub, nonce: nonce}
+
+	b := x.bytes()
+	vAssert(len(b) == sharedTransactionDataLen, "C13/shared-data-has-its-fixed-length")
+	if len(b) == sharedTransactionDataLen {
+		v := uint32(b[20])*16777216 + uint32(b[21])*65536 + uint32(b[22])*256 + uint32(b[23])
+		n := uint32(b[24])*16777216 + uint32(b[25])*65536 + uint32(b[26])*256 + uint32(b[27])
+		vAssert(vEq(b[:20], senderBytes) && v == vub && n == nonce, "C13/shared-data-layout-is-sender-then-two-big-endian-words")
+	}
+
+	var y sharedTransactionData
+	derr := y.decodeString(x.encodeToString())
+	vAssert(derr == nil, "C13/shared-data-round-trip")
+	if derr == nil {
+		vAssert(vEq(y.sender.BytesBE(), senderBytes) && y.validUntilBlock == vub && y.nonce == nonce, "C13/shared-data-round-trip")
+		vCover("shared-data-decoded")
+	}
+
+	payload := vBytes("payload", vParam(0))
+	ok, rest := x.shiftChecksum(x.unshiftChecksum(payload))
+	vAssert(ok && vEq(rest, payload), "C13/checksum-prefix-round-trip")
+	short := vBytes("short", 3)
+	okShort, _ := x.shiftChecksum(short)
+	vAssert(!okShort, "C13/input-shorter-than-the-checksum-is-refused")
+	// an input of exactly the checksum's length is a checksum with an empty payload
+	okEmpty, restEmpty := x.shiftChecksum(x.unshiftChecksum(nil))
+	vAssert(okEmpty && len(restEmpty) == 0, "C13/empty-payload-round-trip")
 }
